@@ -622,6 +622,19 @@ def s_ord_cmp(ex, st, callee, args, argv, f):
     return ok1(st, o)
 
 
+def s_int_minmax(ex, st, callee, args, argv, f):
+    m = re.search(r"(min|max)::<([iu](?:8|16|32|64|size))>$", callee) or re.search(r"^<([iu](?:8|16|32|64|size)) as Ord>::(min|max)$", callee)
+    g = m.groups()
+    op, ty = (g[0], g[1]) if g[0] in ("min", "max") else (g[1], g[0])
+    a, b = argv[0], argv[1]
+    if not (z3.is_bv(a) and z3.is_bv(b)):
+        raise Unsupported("%s on %r, %r" % (op, a, b))
+    lt = (b < a) if ty.startswith("i") else z3.ULT(b, a)
+    if op == "min":
+        return ok1(st, z3.If(lt, b, a))
+    return ok1(st, z3.If(lt, a, b))
+
+
 def s_identity(ex, st, callee, args, argv, f):
     return ok1(st, argv[0])
 
@@ -681,6 +694,7 @@ COMMON = [
     (r"^(?:core::)?bool::<impl bool>::then::<|^core::bool::<impl bool>::then::<", s_bool_then),
     (r"^(?:core::)?bool::<impl bool>::then_some::<|^core::bool::<impl bool>::then_some::<", s_bool_then_some),
     (r"^core::num::<impl u(?:8|16|32|64|size)>::checked_mul$", s_checked_mul),
+    (r"^(?:(?:std|core)::cmp::)?(?:min|max)::<[iu](?:8|16|32|64|size)>$|^<[iu](?:8|16|32|64|size) as Ord>::(?:min|max)$", s_int_minmax),
     (r"^<&\[u8\] as IntoIterator>::into_iter$|^<(?:std::|core::)?slice::Iter<'_, u8> as IntoIterator>::into_iter$|^<&(?:std::vec::)?Vec<u8(?:, \d+)?> as IntoIterator>::into_iter$", s_slice_into_iter),
     (r"^<(?:std::|core::)?slice::Iter<'_, u8> as Iterator>::next$|^<(?:std::|core::)?str::Bytes<'_> as Iterator>::next$", s_slice_iter_next),
     (r"^<(?:std::|core::)?str::Bytes<'_> as IntoIterator>::into_iter$", s_slice_into_iter),
